@@ -7,7 +7,8 @@ LEVEL = ("Structural premises from which freshness and routing follow by a short
          "writers (constructor seeded from the PREVIOUS data's last id; next_call_request_id = field+1 returning the "
          "updated field), the same id value keys the request and is persisted in the pending state, the produced data "
          "stores the counter, and a result is looked up only by the id stored in the met state under the own-sender guard. "
-         "Decides those shapes; host misuse and u32 wrap are out of scope.")
+         "Decides those shapes; host misuse and u32 wrap are out of scope."
+         " Added: the own pending mark survives a merge; every failed-run exit returns the untouched previous data (which holds the counter); R-SIDES.")
 
 
 def check(ctx):
